@@ -1140,9 +1140,10 @@ class Model:
                 fixed = canonical_state.fixed
 
                 for alias in aliases:
+                    unsigned_alias = alias[1:] if alias[0] == "-" else alias
                     if (
                         len(old_alias_relation.aliases(alias)) > 1
-                        and alias not in old_alias_relation.canonical_variables
+                        and unsigned_alias not in old_alias_relation.canonical_variables
                     ):
                         # We already handled this alias in a previous pass of `detect_aliases`
                         continue
